@@ -1269,19 +1269,20 @@ def gen_cases(ctx):
     # histories of two steps after the first run
     alpha1 = list(_alphabet("separate", 1, std))
     if thorough:
-        # E: one plot, standard options: ALL histories of up to four runs (the first run is fixed by symmetry)
+        # E: one plot, standard options: ALL histories of three runs (the first run is fixed by symmetry);
+        # S: histories of four runs
         for s1 in alpha1:
             for s2 in alpha1:
                 add({"op": "hist", "steps": [first, s1, s2]})
-                for s3 in alpha1:
-                    add({"op": "hist", "steps": [first, s1, s2, s3]})
-        galpha = list(_alphabet("group", 2, std))
         for _ in range(20000):
+            add({"op": "hist", "steps": [first, rng.choice(alpha1), rng.choice(alpha1), rng.choice(alpha1)]})
+        galpha = list(_alphabet("group", 2, std))
+        for _ in range(10000):
             add({"op": "hist", "steps": [gfirst, rng.choice(galpha), rng.choice(galpha)]})
         calpha = list(_alphabet("separate", 1, ALL_CFGS))
-        for _ in range(30000):
+        for _ in range(15000):
             add({"op": "hist", "steps": [first, rng.choice(calpha), rng.choice(calpha)]})
-        for _ in range(40000):
+        for _ in range(20000):
             add(_random_history(rng))
     else:
         for _ in range(900):
